@@ -298,7 +298,7 @@ Proof.
     unfold pkr. rewrite pk_mv. change (2 + 0) with 2. rewrite Hp2. cbn [opt_res rbind].
     destruct (negb (is_letter c2)).
     + eapply safe_bind; [apply shift_bogus_spec; [exact Hw2|left; cbn; lia]|]. cbn beta.
-      intros [[v t] z'] [S1 S2]. cbn [fst snd safe] in *. rewrite Hit.
+      intros [[v t] z'] (S1 & S2 & _). cbn [fst snd safe] in *. rewrite Hit.
       apply step_post_plain; [exact Hw|exact Hcl|exact Hit| | | |exact S2|reflexivity|reflexivity].
       * destruct S1 as (B1 & B2 & B3 & B4 & B5). unfold shifted. cbn [mv lbuf lstart lpos] in *.
         rewrite (lx_len_same (lz l) (mv (lz l) 2) eq_refl) in B5. split; [exact B1|]. split; [exact B2|]. split; [exact B3|]. split; [exact B4|lia].
@@ -363,7 +363,7 @@ Proof.
     assert (Hlim : lpos (lz l) + 2 <= lx_len (lz l)) by (pose proof (pk_nz_lt _ 1 33 Hw Hp1 ltac:(lia)); lia).
     assert (Ha2 : adv (lz l) (mv (lz l) 2)) by (apply adv_mv; lia).
     eapply safe_bind; [apply read_markup_spec; [eauto using adv_wf|cbn; lia]|]. cbn beta.
-    intros [[[ty v] t] z'] (S1 & S2 & S3 & S4). cbn [safe]. rewrite Hit.
+    intros [[[ty v] t] z'] (S1 & S2 & S3 & S4 & _). cbn [safe]. rewrite Hit.
     apply step_post_plain; [exact Hw|exact Hcl|exact Hit| | | |exact S2|reflexivity|reflexivity].
     + destruct S1 as (B1 & B2 & B3 & B4 & B5). unfold shifted. cbn [mv lbuf lstart lpos] in *.
       rewrite (lx_len_same (lz l) (mv (lz l) 2) eq_refl) in B5. split; [exact B1|]. split; [exact B2|]. split; [exact B3|]. split; [exact B4|lia].
@@ -377,7 +377,7 @@ Proof.
     eapply safe_bind.
     { apply shift_bogus_spec; [eauto using adv_wf|]. right. cbn [mv lstart lpos]. split; [lia|].
       exists 63. rewrite pk_mv. change (1 + 0) with 1. split; [exact Hp1|lia]. }
-    cbn beta. intros [[v t] z'] [S1 S2]. cbn [fst snd safe] in *. rewrite Hit.
+    cbn beta. intros [[v t] z'] (S1 & S2 & _). cbn [fst snd safe] in *. rewrite Hit.
     apply step_post_plain; [exact Hw|exact Hcl|exact Hit| | | |exact S2|reflexivity|reflexivity].
     + destruct S1 as (B1 & B2 & B3 & B4 & B5). unfold shifted. cbn [mv lbuf lstart lpos] in *.
       rewrite (lx_len_same (lz l) (mv (lz l) 1) eq_refl) in B5. split; [exact B1|]. split; [exact B2|]. split; [exact B3|]. split; [exact B4|lia].
